@@ -451,6 +451,39 @@ class FnTaint:
             op = NEG[op]
         return (l, op, r)
 
+    def expr_width(self, t):
+        """Bit width in which an integer expression is computed (C++ usual
+        arithmetic conversions, approximated from the leaf / cast widths)."""
+        if not isinstance(t, dict):
+            return 64
+        k = t.get("k")
+        if k in ("icast", "cast"):
+            return t.get("iw") or self.expr_width(t.get("e"))
+        if k in ("var", "field"):
+            return max(t.get("iw") or 64, 32)
+        if k == "lit":
+            return 32
+        if k == "bin":
+            return max(self.expr_width(t.get("l")), self.expr_width(t.get("r")), 32)
+        if k == "un":
+            return self.expr_width(t.get("e"))
+        if k == "call":
+            return t.get("iw") or 64
+        if k == "copy":
+            return self.expr_width(t.get("e"))
+        return 64
+
+    def wraps(self, side):
+        """Could the guarded side wrap around before it is compared?  A
+        multiplication, addition or left shift carried out in fewer than 64
+        bits on the stream-derived side (`5 * n > remaining`) makes the
+        comparison pass for huge n."""
+        for n in walk(side):
+            if n.get("k") == "bin" and n.get("op") in ("*", "+", "<<") and "v" not in n:
+                if self.expr_width(n) < 64:
+                    return True
+        return False
+
     def const_of(self, t):
         while isinstance(t, dict) and t.get("k") in ("icast", "cast", "copy") and "v" not in t:
             t = t.get("e")
@@ -511,6 +544,8 @@ class FnTaint:
                         continue
                     if o not in ("<", "<=", "=="):
                         continue
+                    if o != "==" and self.wraps(side):
+                        continue      # the guarded expression may wrap around
                     why = self._other_kind(other, cb.id, kinds, o, depth, lab)
                     if why:
                         return "%s `%s` (%s edge) at %s" % (
